@@ -177,6 +177,7 @@ func (s *Session) Request(input []byte) (r Resp) {
 	cont, err := en.Exec(ctx, input)
 	r.Cont = cont
 	r.ExecErr = errStr(err)
+	r.FinishErr = "-" // "-" = Finish was not called
 	if err != nil {
 		if s.FinishOnError {
 			r.FinishErr = errStr(en.Finish(ctx))
